@@ -1,8 +1,10 @@
 import PartituraModel.Wire
 import PartituraModel.Model.MatchLine
+import PartituraModel.Model.MatchHist
 import PartituraModel.Gen.MatchTemplates
 
 open Wire Model Model.Template Model.MatchCodec Model.MatchLine
+open Model.MatchHist (HOp Obs)
 
 def TS := Gen.matchTemplates
 def CS := Gen.matchComposites
@@ -131,6 +133,29 @@ def splitName (n : String) : Option ((Nat × Nat × Nat) × String) :=
 
 def orErr (o : Option String) : String := o.getD "err"
 
+def pVer : P (Nat × Nat × Nat) := do
+  let t ← tok
+  match parseVer t with
+  | some v => pure v
+  | none => P.fail
+
+/-- one operation of a history: `B ver kind n vals…`, `P ver kind line`, `D ver line`, `T slot`, `W slot` -/
+def pHOp : P HOp := do
+  let t ← tok
+  match t with
+  | "B" => do let v ← pVer; let k ← tok; let vals ← list pVal; pure (.build v k vals)
+  | "P" => do let v ← pVer; let k ← tok; let l ← pStr; pure (.parse v k l)
+  | "D" => do let v ← pVer; let l ← pStr; pure (.dispatch v l)
+  | "T" => do let i ← nat; pure (.tov1 i)
+  | "W" => do let i ← nat; pure (.write i)
+  | _ => P.fail
+
+def fmtObs : Obs → String
+  | .made i => "+" ++ toString i
+  | .failed => "x"
+  | .text (some s) => encS s
+  | .text none => "err"
+
 def handle (ts : List String) : String :=
   match ts with
   | "fmt" :: name :: rest =>
@@ -178,15 +203,23 @@ def handle (ts : List String) : String :=
   | "fracstr" :: rest =>
     orErr <| (run pFrac rest).map fun f => encS f.toStr
   | ["fracparse", s] =>
-    match fracFromString (decodeStr s).toList with
+    match fracFromStringB (decodeStr s).toList with
     | .ok f => fmtFrac f
     | .error .value => "err:value"
     | .error .unmodelled => "unmodelled"
   | "fracadd" :: rest =>
     orErr <| (run (do let a ← pFrac; let b ← pFrac; pure (a, b)) rest).map fun (a, b) =>
-      match Frac.add? a b with
+      match Frac.addB a b with
       | some c => fmtFrac c
-      | none => "unmodelled"
+      | none => "err:value"
+  | "fracmk" :: rest =>
+    orErr <| (run (do let n ← nat; let d ← nat; let t ← pOptNat; pure (n, d, t)) rest).map fun (n, d, t) =>
+      match Frac.mkB n d t with
+      | some f => fmtFrac f
+      | none => "err:value"
+  | "hist" :: rest =>
+    orErr <| (run (list pHOp) rest).map fun ops =>
+      " ".intercalate ((Model.MatchHist.run TS CS [] ops).2.map fmtObs)
   | ["keystr", fmt, f, m] =>
     orErr <| do
       let kf ← match fmt with
